@@ -104,6 +104,10 @@ var Registry = map[string]func(c *Ctx, arg string) error{
 		RunLazy(c)
 		return nil
 	},
+	"fullnode": func(c *Ctx, arg string) error {
+		RunFullNode(c)
+		return nil
+	},
 	"world": func(c *Ctx, arg string) error {
 		RunWorld(c)
 		return nil
